@@ -181,10 +181,8 @@ impl<'a, W: fmt::Write> JsFunctionArgsAssigner<'a, W> {
 
     pub(crate) fn gen_ident(&mut self) -> JsIdent {
         let block = self.get_block_mut();
-        let var_id = block.ident_id_inc;
-        block.ident_id_inc += 1;
         JsIdent {
-            name: get_var_name(var_id),
+            name: next_var_name(&mut block.ident_id_inc),
         }
     }
 }
@@ -193,6 +191,28 @@ pub(crate) struct JsFunctionScopeWriter<'a, W: fmt::Write> {
     w: &'a mut String,
     block: Option<&'a mut JsBlockStat>,
     top_scope: &'a mut JsTopScopeWriter<W>,
+}
+
+/// Words that must not be used as generated variable names.
+const VAR_NAME_RESERVED: [&str; 56] = [
+    "arguments", "await", "break", "case", "catch", "class", "const", "continue", "debugger",
+    "default", "delete", "do", "else", "enum", "eval", "export", "extends", "false", "finally",
+    "for", "function", "if", "implements", "import", "in", "instanceof", "interface", "let", "new",
+    "null", "package", "private", "protected", "public", "return", "static", "super", "switch",
+    "this", "throw", "true", "try", "typeof", "var", "void", "while", "with", "yield",
+    // globals used by the generated code
+    "undefined", "Infinity", "NaN", "Object", "String", "Array", "async", "of",
+];
+
+/// Generate the next variable name, skipping the reserved words.
+fn next_var_name(var_id_inc: &mut usize) -> String {
+    loop {
+        let name = get_var_name(*var_id_inc);
+        *var_id_inc += 1;
+        if !VAR_NAME_RESERVED.contains(&name.as_str()) {
+            return name;
+        }
+    }
 }
 
 fn get_var_name(mut var_id: usize) -> String {
@@ -225,10 +245,8 @@ impl<'a, W: fmt::Write> JsFunctionScopeWriter<'a, W> {
 
     pub(crate) fn gen_ident(&mut self) -> JsIdent {
         let block = self.get_block_mut();
-        let var_id = block.ident_id_inc;
-        block.ident_id_inc += 1;
         JsIdent {
-            name: get_var_name(var_id),
+            name: next_var_name(&mut block.ident_id_inc),
         }
     }
 
@@ -298,10 +316,8 @@ impl<'a, W: fmt::Write> JsFunctionScopeWriter<'a, W> {
 
     pub(crate) fn declare_var_on_top_scope(&mut self) -> Result<JsIdent, TmplError> {
         let block = &mut self.top_scope.block;
-        let var_id = block.ident_id_inc;
-        block.ident_id_inc += 1;
         let ident = JsIdent {
-            name: get_var_name(var_id),
+            name: next_var_name(&mut block.ident_id_inc),
         };
         self.top_scope.declare_on_top(&ident.name)?;
         Ok(ident)
@@ -312,9 +328,7 @@ impl<'a, W: fmt::Write> JsFunctionScopeWriter<'a, W> {
         init: impl FnOnce(&mut JsExprWriter<W>, JsIdent) -> Result<R, TmplError>,
     ) -> Result<R, TmplError> {
         let block = &mut self.top_scope.block;
-        let var_id = block.ident_id_inc;
-        block.ident_id_inc += 1;
-        let var_name = get_var_name(var_id);
+        let var_name = next_var_name(&mut block.ident_id_inc);
         let ident = JsIdent {
             name: var_name.clone(),
         };
@@ -430,10 +444,8 @@ impl<'a, W: fmt::Write> JsExprWriter<'a, W> {
     #[allow(dead_code)]
     pub(crate) fn declare_var_on_top_scope(&mut self) -> Result<JsIdent, TmplError> {
         let block = &mut self.top_scope.block;
-        let var_id = block.ident_id_inc;
-        block.ident_id_inc += 1;
         let ident = JsIdent {
-            name: get_var_name(var_id),
+            name: next_var_name(&mut block.ident_id_inc),
         };
         self.top_scope.declare_on_top(&ident.name)?;
         Ok(ident)
